@@ -303,6 +303,11 @@ func (b *windowTimeBuffer) purge(oldest time.Time, inclusive bool) {
 	if l == 0 {
 		return
 	}
+	if b.start == l {
+		// The data has wrapped around and nothing is left at the end of the
+		// buffer: the oldest point is at the beginning.
+		b.start = 0
+	}
 	if b.start < b.stop {
 		for ; b.start < b.stop; b.start++ {
 			if include(b.window[b.start].Time()) {
